@@ -292,6 +292,8 @@ def _iterates_header(it, known):
 def run(ctx):
     # =============================================================== D1 header size, five sites
     ctx.clause = 'D1'
+    from .common import header_rendered_afresh
+    header_rendered_afresh(ctx, ' (a second recording with other values must not get the first one\'s cards)')
     mk = ctx.func(B + '._make_header')
     # (format_header_line is analysed through its body: a card is 80 columns whether the padding is applied by the formatter,
     #  by the writer, or by both)
@@ -731,6 +733,29 @@ def run(ctx):
         ok = ok and exact
     ctx.ob('FORMULA', 'format_header_line pads (never truncates) to 80 columns', fh, ok,
            {'return': pretty(r.ret)[:200]}, node=fh.node, construct='return line')
+    # a card carries its value as Python prints it (strings quoted and padded to 8, other values right-justified in 20 columns,
+    # TBIN with 14 decimals): a user card reads back equal only if the value is not shortened to fit a field
+    REF_FORMAT_LINE = """
+def format_header_line(key, value, as_strings=False):
+    if as_strings:
+        if "'" in value:
+            line = f"{key:<8}= {value:<20}"
+        else:
+            line = f"{key:<8}= {value:>20}"
+    else:
+        if isinstance(value, str):
+            value = f"'{value: <8}'"
+            line = f"{key:<8}= {value:<20}"
+        else:
+            if key == 'TBIN':
+                value = f"{value:.14E}"
+            line = f"{key:<8}= {value:>20}"
+    line = f"{line:<80}"
+    return line
+"""
+    from .common import agree_ref as _agree_ref
+    _agree_ref(ctx, fh, REF_FORMAT_LINE, 'format_header_line: the value is written as Python prints it (never shortened to fit a field)',
+              what=('return',))
     REF_READ_HEADER = """
 def read_header(filename):
     header_dict = {}
